@@ -411,6 +411,8 @@ impl<'a, T: RealNumber, M: Matrix<T>, K: Kernel<T, M::RowVector>> Optimizer<'a, 
             for i in Self::permutate(n) {
                 self.process(i, self.x.get_row(i), self.y.get(i), &mut cache);
                 loop {
+                    #[cfg(feature = "verif")]
+                    crate::verif::tick("svc.reprocess");
                     self.reprocess(tol, &mut cache);
                     self.find_min_max_gradient();
                     if self.gmax - self.gmin < good_enough {
@@ -570,6 +572,8 @@ impl<'a, T: RealNumber, M: Matrix<T>, K: Kernel<T, M::RowVector>> Optimizer<'a, 
         let mut rng = rand::thread_rng();
         let mut range: Vec<usize> = (0..n).collect();
         range.shuffle(&mut rng);
+        #[cfg(feature = "verif")]
+        let range = crate::verif::svc_permutation_hook(range);
         range
     }
 
